@@ -739,7 +739,11 @@ def forall(lo, hi, fn):
     st = cur()
     if st.capture is None:
         if st.qf_refutes(_z(lo) < _z(hi)):
-            return True  # empty range on this path
+            return True  # empty range on this path (refuted by the quantifier-free part of the path condition alone)
+        if st.n_quantified and not st.cfg.qf_branching:
+            r0, _m = st._check(_z(lo) < _z(hi), 1000)
+            if r0 == z3.unsat:
+                return True  # empty range on this path
     j = z3.Int(st.fresh_name("q"))
     saved = st.capture
     st.capture = []
